@@ -26,7 +26,10 @@ RULE = ("Hypothesis constructs a directory tree of .xbb files: 1..3 subroutines 
         " Subroutines may contain for loops (loop-invariant statements plus one using the loop variable); a later call"
         " of the same subroutine may pass look-alike keyword values (2 / 2.0); a quarter of the cases writes one"
         " include as \"lnk/../<path>\" through a symbolic link into another directory tree (the operating system's"
-        " resolution is the oracle, a decoy file sits where a textual normalisation would look).")
+        " resolution is the oracle, a decoy file sits where a textual normalisation would look). Directory names may be"
+        " '$HOME', '~', '${HOME}', '$PATH', '%TEMP%' (ordinary names to the operating system). Half of the cases load the tree a"
+        " first time while one included file is missing, syntactically broken or uses an undefined name, put the file right and"
+        " load again: the second load is the one compared (an earlier failed attempt must not matter).")
 ASSUMPTIONS = ["reference interpreter and inliner (bbv/model/refsem.py)", "files are ASCII (FileStream default)",
                "mismatched calls (arity, keywords) are covered by C11"]
 BUDGET = {"quick": (1200, 4), "thorough": (8000, 16)}
@@ -125,7 +128,9 @@ def call_stmt(draw, name, nmodes, params, loopvar=None):
 @st.composite
 def case(draw, tier):
     nsubs = draw(st.integers(1, 3))
-    dirs = ["", "lib", "lib/deep", "other"]
+    # (directory names that mean something to a shell -- '$HOME', '~' -- are ordinary names to the operating system)
+    lib = draw(st.sampled_from(["lib"] * 5 + ["$HOME", "~", "${HOME}", "$PATH", "%TEMP%"]))
+    dirs = ["", lib, lib + "/deep", "other"]
     files = {}          # rel path -> {"script": model, "includes": [(kind, target rel)]}
     subs = []
     # scenario: the same *relative include string* ("rot.xbb") denotes different files next to the wrapper and next to main
@@ -184,7 +189,7 @@ def case(draw, tier):
         wmodes = None   # computed from the reference
         callables.append({"name": "wrap", "rel": wrel, "nmodes": None, "params": [], "modes": None})
         depth = 2
-    maindir = draw(st.sampled_from(["", "m", "m/n", "lib"])) if not same_string else ss_mdir
+    maindir = draw(st.sampled_from(["", "m", "m/n", lib])) if not same_string else ss_mdir
     mrel = posixpath.join(maindir, "main.xbb")
     items = []
     incs = []
@@ -211,6 +216,9 @@ def case(draw, tier):
     case_["decoy"] = draw(st.booleans())
     case_["symlink"] = draw(st.integers(0, 3)) == 0
     case_["main_items"] = main_items
+    # an earlier load of the same tree that fails inside an included file (file missing / broken), after which the file is put right
+    case_["prime"] = draw(st.sampled_from([None, None, None, "missing", "syntax", "undefined-name"]))
+    case_["prime_idx"] = draw(st.integers(0, 7))
     # draw the call statements now (arity of the wrapper is known only after the reference run: use placeholders)
     case_["call_draws"] = [[draw(st.integers(0, 30)) for _ in range(8)] + [draw(st.integers(0, 3))] for _ in case_["calls"]]
     case_["kw_draws"] = [[draw(st.sampled_from(["0.5", "1.25", "2", "3.0", "0.125", "1", "2.0"])) for _ in range(3)] for _ in case_["calls"]]
@@ -378,10 +386,30 @@ def check(c):
         os.chdir(cwd)
         main_abs = os.path.join(root, c["main"])
         arg = main_abs if c["how"] == "abs" or cwd_rel is None else os.path.relpath(main_abs, cwd)
+        primed = None
+        if c.get("prime") and not symlinked:
+            # the edit/retry cycle: one file of the tree is missing or broken at the first attempt (whatever that attempt does
+            # is not asserted here), is put right, and the tree is loaded again -- that load is the one compared
+            victims = sorted(c["files"])
+            vpath = os.path.join(root, victims[c["prime_idx"] % len(victims)])
+            with open(vpath, encoding="ascii", newline="") as f:
+                good = f.read()
+            if c["prime"] == "missing":
+                os.rename(vpath, vpath + ".away")
+            else:
+                with open(vpath, "w", encoding="ascii", newline="") as f:
+                    f.write(good.rstrip("\r\n") + ("\nSgate(1 | 0\n" if c["prime"] == "syntax" else "\nSgate(undefined_zz9) | 0\n"))
+            _, e0 = K.safe_load_file(arg)
+            if c["prime"] == "missing":
+                os.rename(vpath + ".away", vpath)
+            else:
+                with open(vpath, "w", encoding="ascii", newline="") as f:
+                    f.write(good)
+            primed = "after-failed-attempt" if e0 is not None else "after-unaffected-attempt"
         p, e = K.safe_load_file(arg)
         os.chdir(old)
         allt = "\n".join("### %s\n%s" % (k, v.replace(root, "<ROOT>")) for k, v in sorted(texts.items()))
-        key = allt + "|cwd=%s|how=%s|decoys=%d|symlink=%d" % (c["cwd"], c["how"], decoys, symlinked)
+        key = allt + "|cwd=%s|how=%s|decoys=%d|symlink=%d|prime=%s" % (c["cwd"], c["how"], decoys, symlinked, primed)
         out = Outcome(key=key, sample={"files": {k: v.replace(root, "<ROOT>") for k, v in texts.items()}, "cwd": c["cwd"], "load_path": c["how"]})
         unsorted_sub = any(cc["modes"] is not None and cc["modes"] != sorted(cc["modes"]) and len(cc["modes"]) > 1 and cc["name"] in c["chosen"]
                            for cc in c["callables"])
@@ -398,6 +426,10 @@ def check(c):
             out.classes.append("absolute-include")
         if any(cl["loop"] for cl in c["calls"]):
             out.classes.append("call-in-loop")
+        if primed:
+            out.classes.append(primed)
+        if any(ch in allt for ch in ("$", "~", "%TEMP%")):
+            out.classes.append("shell-like-directory-name")
         out.nontrivial = unsorted_sub or any(v >= 2 for v in multi.values()) or c["depth"] >= 2 or c["cwd"] != "main"
         if e is not None:
             out.violations.append(Violation(exc_bucket("load", e), "valid include tree refused: %s: %s\ncwd=%s load(%r)\n%s" % (
